@@ -90,6 +90,10 @@ def step (p : Pool) (op : Json) : Pool × Json :=
     withBP p op (fun b =>
       let l := (asArr (getField op "list")).map asMark
       ⟨if fInt op "which" = 1 then { b with marker1 := l } else { b with marker2 := l }, none⟩)
+  else if o = "bp.appendMarker" then
+    withBP p op (fun b =>
+      let m := asMark (getField op "mark")
+      ⟨if fInt op "which" = 1 then { b with marker1 := b.marker1 ++ [m] } else { b with marker2 := b.marker2 ++ [m] }, none⟩)
   else if o = "bp.setSR" then withBP p op (fun b => ⟨{ b with SR := fVal op "SR" }, none⟩)
   else if o = "bp.copy" then
     match p.bp? (fStr op "id") with
